@@ -158,7 +158,9 @@ class MarkerTrack(Sized, BuildWriteable):
         return f"Track(label={self.label}, nFrames={self.nFrames})"
 
     def __eq__(self, other):
-        return self.label == other.label and np.all(self.data == other.data)
+        return self.label == other.label and np.array_equal(
+            self.data, other.data, equal_nan=True
+        )
 
 
 class Data3D(Block):
